@@ -8,6 +8,7 @@ import cont_chan as cc
 import types_chan as tc
 import macro_chan as mc
 import own_chan as oc
+import mut_chan as mu
 
 
 # ----------------------------------------------------------------------------
@@ -871,5 +872,36 @@ class C19(CaseSpec):
         return oc.oracle_own(case, obs)
 
 
-REGISTRY = {"C19": C19, "C14": C14, "C16": C16, "C11": C11, "C12": C12, "C13": C13, "C18": C18, "C01": C01, "C02": C02, "C03": C03, "C04": C04, "C05": C05, "C06": C06, "C07": C07, "C08": C08,
+# ----------------------------------------------------------------------------
+# C20: mutation from inside loops and callbacks
+# ----------------------------------------------------------------------------
+class C20(CaseSpec):
+    def cases(self, tier, rng):
+        return mu.gen_cases("D", rng, tier) + mu.gen_cases("U", rng, tier)
+
+    def exhaustive(self, tier):
+        if tier == "thorough":
+            return ("all multigraphs on 2 nodes <=3 edges and 3 nodes <=2 edges x every loop kind (edge iterators; bfs/dfs/pfs-min/pfs-max x path/cycle/find; pre/post x "
+                    "nodes/edges; transpose on/off; for_each and filter) x every single operation (connect, try_connect, disconnect, isolate with every operand; a new node) "
+                    "injected at invocation 0..3")
+        return ("all multigraphs on 2 nodes <=2 edges (and every 9th on 3 nodes) x every loop kind (edge iterators, bfs/dfs/pfs path searches, orderings, transpose on/off) x "
+                "every single operation with every operand injected at invocation 0..2")
+
+    def rule(self):
+        return ("one case = graph, one or more `scr k op` (operation executed from inside the loop body / for_each / filter closure at its k-th invocation), the loop or "
+                "traversal, a snapshot. compared: every edge yielded in order, the results of the injected operations, the traversal result and the final snapshot, on all "
+                "four flavours (a self-deadlock of the sync flavours shows as a hang caught by the watchdog). seeded random multi-operation scripts on graphs up to 6 nodes. "
+                "nested searches from inside closures are not generated. non-trivial = the loop runs on a node with at least one edge")
+
+    def nontrivial(self, case):
+        return any(s.startswith("con ") for s in case.steps)
+
+    def sample(self, case):
+        return dict(name=case.name, cls=case.cls, steps=case.steps)
+
+    def oracle(self, case, flavour, obs):
+        return mu.oracle_mut(case, obs)
+
+
+REGISTRY = {"C20": C20, "C19": C19, "C14": C14, "C16": C16, "C11": C11, "C12": C12, "C13": C13, "C18": C18, "C01": C01, "C02": C02, "C03": C03, "C04": C04, "C05": C05, "C06": C06, "C07": C07, "C08": C08,
             "C09": C09, "C10": C10}
